@@ -99,3 +99,14 @@ TEXT["C18"] = dict(
     note="Trusts testing/synctest of Go 1.24.2. Ticks racing Shutdown are outside the property's quantifier and only observed for data races.",
     technique="runtime trace checker over an ordered event log of instrumented collaborators, events injected at synctest quiescence",
 )
+
+TEXT["C19"] = dict(
+    level="Write-level runtime monitoring against a reference slog.TextHandler: every Write reaching the shared writer is captured and judged (one newline-terminated JSON object, exactly severity+message, message == reference line for the record plus the attributes accumulated on the derivation path) over all attribute-count derivation trees to depth 4/5 with 3 siblings per level, shared Records, hostile keys/values of every slog.Kind and 6 option sets; a concurrent stage under the race detector writes through a 7-handler tree to one deliberately unsynchronised writer and compares the multiset of lines with the references. Exploration.",
+    note="Trusts slog.TextHandler and encoding/json of the pinned stdlib. Comparison is semantic (decoded JSON), so escaping style and member order are free.",
+    technique="runtime differential monitor on the writer boundary (reference text handler) + race detector with an unsynchronised recording writer",
+)
+TEXT["C20"] = dict(
+    level="Per-request-id trace checking under concurrency: tens of thousands of requests, each self-identifying in six places, pass through one LogMiddleware from up to 64 goroutines while an in-handler barrier provably holds several requests inside the wrapped handler at once (the evidence reports the maximum observed) and releases them in enumerated orders; log records (from copying and from slice-retaining slog handlers that yield at the suspension points), handler-side observations and client-side responses are grouped by id and must be mutually consistent; repeated under the race detector, with GOMAXPROCS=2 and over a real loopback server with keep-alive clients. Middleware order is checked for every permutation of up to 5/7 middlewares, wrapping the same slice repeatedly. Exploration over schedules.",
+    note="Trusts net/http/httptest and the race detector. Handlers set at most one final status code.",
+    technique="runtime per-id trace checker over recorded log records and responses, barrier-forced overlap, race detector",
+)
